@@ -154,6 +154,7 @@ class ProductState:
             Dictionary of outcomes, where the state is key and its outcome measurement
         is the value (int)
         """
+        from photon_weave.state.custom_state import CustomState
         from photon_weave.state.polarization import Polarization, PolarizationLabel
 
         assert all(
@@ -200,7 +201,8 @@ class ProductState:
                 remaining_states.remove(state)
 
                 # Handle post measurement processes
-                if destructive:
+                # (custom states are never destroyed, they keep their outcome)
+                if destructive and not isinstance(state, CustomState):
                     state._set_measured()
                 else:
                     if isinstance(state, Polarization):
@@ -256,7 +258,7 @@ class ProductState:
 
                 # Remove the mesaured state from the remaining states
                 remaining_states.remove(state)
-                if destructive:
+                if destructive and not isinstance(state, CustomState):
                     state._set_measured()
                 else:
                     if isinstance(state, Polarization):
